@@ -224,8 +224,9 @@ def _job(job, emit):
             rec.update(status="export-error", msg=str(e)[:200])
             emit("rec", rec)
             continue
-        rec["text_a"] = str(p)
-        rec["text_b"] = str(q)
+        from .edges import _safe_str
+        rec["text_a"] = _safe_str(p)
+        rec["text_b"] = _safe_str(q)
         for ui, u in enumerate(units):
             r2 = dict(rec)
             r2["status"] = "accepted"
